@@ -395,6 +395,7 @@ typedef struct
 
 static const uint8_t* it_fetch(YR_MEMORY_BLOCK* b) { return (const uint8_t*) b->context; }
 
+static long iter_sleep_ms = 0;
 static YR_MEMORY_BLOCK* it_answer(YR_MEMORY_BLOCK_ITERATOR* it, const char* op)
 {
   ITCTX* c = (ITCTX*) it->context;
@@ -414,6 +415,7 @@ static YR_MEMORY_BLOCK* it_answer(YR_MEMORY_BLOCK_ITERATOR* it, const char* op)
     return NULL;
   }
   int i = c->pos++;
+  if (iter_sleep_ms > 0) { struct timespec ts = {iter_sleep_ms / 1000, (iter_sleep_ms % 1000) * 1000000L}; nanosleep(&ts, NULL); }   /* a source that takes time to deliver a block */
   c->blk.base = c->base[i];
   c->blk.size = c->size[i];
   c->blk.context = (void*) (c->data + c->doff[i]);
@@ -697,6 +699,7 @@ int main(int argc, char** argv)
       else if (!strcmp(tok[1], "iterlog")) iter_log = atoi(tok[2]);
       else if (!strcmp(tok[1], "flushscan")) flush_scan = atoi(tok[2]);
       else if (!strcmp(tok[1], "freshit")) fresh_iterator = atoi(tok[2]);
+      else if (!strcmp(tok[1], "itersleep")) iter_sleep_ms = atol(tok[2]);
       else if (!strcmp(tok[1], "defaultinclude")) default_include = atoi(tok[2]);   /* compilers keep the library's own include callback (real files) */
 #ifdef YARA_VERIF
       else if (!strcmp(tok[1], "chainhook")) yr_verif_chain_hook = atoi(tok[2]) ? on_chain : NULL;
